@@ -198,7 +198,8 @@ def main():
             "smt_tasks": [{k: v for k, v in r.items() if k not in ("samples",)} for r in smt_results],
             "inconclusive": inconclusive,
             "replays": replays,
-            "known_findings_hit": [{"key": k["harness"] + "|" + k["check"], "harness": n} for k, n in known_hits],
+            "known_findings_hit": [{"key": key, "harness": n, "counterexamples": c} for (key, n), c in sorted(
+                __import__("collections").Counter((k["harness"] + "|" + k["check"], n) for k, n in known_hits).items())],
         },
         "assumptions": cfg.assumptions,
         "wall_s": round(wall, 1),
@@ -210,8 +211,8 @@ def main():
     with open(target, "w") as f:
         json.dump(evidence, f, indent=1)
 
-    for k, name in known_hits:
-        print("KNOWN-FINDING: property=%s %s (%s)" % (prop, k["text"], name))
+    for k, name in sorted({(k["text"], name) for k, name in known_hits}):   # one line per listed finding, however many paths hit it
+        print("KNOWN-FINDING: property=%s %s (%s)" % (prop, k, name))
     for v in violations:
         print("VIOLATION property=%s replay=%s" % (prop, v["replay"]))
         print("  %s: %s" % (v["name"], v["reason"]))
